@@ -29,12 +29,14 @@ def cad_patches(proxy=None):
 
 def options(tier):
     base = [dict(ip=False, it=False, if_=False, smear=False), dict(ip=True, it=True, if_=False, smear=False),
-            dict(ip=False, it=False, if_=True, smear=True), dict(ip=True, it=False, if_=False, smear=True)]
+            dict(ip=False, it=False, if_=True, smear=True), dict(ip=True, it=False, if_=False, smear=True),
+            # the path need not be a function: a fixed frequency / a per-row array, with a time-varying intensity profile
+            dict(ip=False, it=False, if_=False, smear=False, pform='sc'), dict(ip=False, it=True, if_=False, smear=False, pform='arr')]
     return base
 
 
 def mk_cfg(T, Fc, asc, o):
-    return Cfg(T=T, Fc=Fc, asc=asc, pform='fn', tform='fn', bform='fn', ip=o['ip'], it=o['it'], if_=o['if_'], smear=o['smear'],
+    return Cfg(T=T, Fc=Fc, asc=asc, pform=o.get('pform', 'fn'), tform='fn', bform='fn', ip=o['ip'], it=o['it'], if_=o['if_'], smear=o['smear'],
                bound=False, nt=2, nf=3, ns=2, geom=None)
 
 
@@ -360,6 +362,12 @@ def replay_cadence(p):
     if nfr >= 2:
         _decoys = [stg.Cadence(frames[1:]), stg.Cadence(frames[::-1]), cad[1:], cad[[nfr - 1]]]
     kw = dict(integrate_path=o['ip'], integrate_t_profile=o['it'], integrate_f_profile=o['if_'], doppler_smearing=o['smear'], t_subsamples=2, f_subsamples=2, smearing_subsamples=2)
+    pform = o.get('pform', 'fn')
+    if pform == 'sc':
+        path = 4091.0
+    elif pform == 'arr':
+        path = np.array([4090.5 + 0.75 * i for i in range(T)])
+    shifted_path = (lambda off: (lambda t: path(t + off))) if pform == 'fn' else (lambda off: path)
     tgt.add_signal(path, tprof, fprof, bp, **kw)
     members = [m for m, fr in enumerate(frames) if any(fr is g for g in tgt.frames)]
     first = [m for m, fr in enumerate(frames) if fr is tgt.frames[0]][0]
@@ -371,7 +379,7 @@ def replay_cadence(p):
         ref.data = Ds[m].copy()
         if m in members:
             off = starts[m] - starts[first]
-            ref.add_signal(lambda t: path(t + off), lambda t: tprof(t + off), fprof, bp, **kw)
+            ref.add_signal(shifted_path(off), lambda t: tprof(t + off), fprof, bp, **kw)
         if not np.allclose(fr.data, ref.data, rtol=1e-9, atol=1e-9):
             msgs.append(f"frame {m}: injected data differs from single-frame injection at times shifted by {starts[m] - starts[first] if m in members else None}")
     return bool(msgs), '; '.join(msgs[:3]) or 'cadence injection is continuous and restores the axes'
